@@ -330,6 +330,14 @@ def client_lock_info(path=None):
                                 scope = 'partial'
                         elif withs or mentions_lock(f):
                             scope = 'partial'
+                            # explicit acquire ... try/finally release: is the connect inside the try?
+                            tries = [n for n in ast.walk(f) if isinstance(n, ast.Try)
+                                     and any(mentions_lock(x) and calls(x, 'self._connect_lock.release')
+                                             for x in n.finalbody)]
+                            if calls(f, 'self._connect_lock.acquire') and len(tries) == 1:
+                                tbody = ast.Module(body=tries[0].body, type_ignores=[])
+                                scope = ('acquireTryFinally' if calls(tbody, 'self.connect')
+                                         else 'acquireTryFinally:connectOutsideTry')
                         else:
                             scope = 'none'
                     out['scope'] = scope
